@@ -70,6 +70,22 @@ pub struct RecRun {
     pub keys: Vec<Vec<u8>>,
     /// first in-process oracle failure (results vs model), if any
     pub failure: Option<Failure>,
+    /// directory snapshots taken after the open and after every op: (log length, name -> content)
+    pub snaps: Vec<(usize, BTreeMap<String, Vec<u8>>)>,
+}
+
+pub fn snapshot_dir(dir: &Path) -> BTreeMap<String, Vec<u8>> {
+    shim::quiet(|| snapshot_dir_inner(dir))
+}
+
+fn snapshot_dir_inner(dir: &Path) -> BTreeMap<String, Vec<u8>> {
+    let mut m = BTreeMap::new();
+    if let Ok(rd) = std::fs::read_dir(dir) {
+        for e in rd.filter_map(|e| e.ok()) {
+            m.insert(e.file_name().to_string_lossy().to_string(), std::fs::read(e.path()).unwrap_or_default());
+        }
+    }
+    m
 }
 
 /// Extract the mutating calls from a log.  `prefix` restricts to paths below `<prefix>/`.
@@ -214,6 +230,14 @@ pub fn run_recorded(hist: &Hist, scratch: &Path, name: &str, with_fsync: bool) -
     let dir = scratch.join(name);
     let _ = std::fs::remove_dir_all(&dir);
     std::fs::create_dir_all(&dir).unwrap();
+    run_recorded_in(hist, scratch, name, with_fsync, false)
+}
+
+/// Like `run_recorded` but starts from whatever `<scratch>/<name>` already holds; with `snaps`
+/// the directory content is captured after the open and after every op.
+pub fn run_recorded_in(hist: &Hist, scratch: &Path, name: &str, with_fsync: bool, snaps: bool) -> RecRun {
+    let dir = scratch.join(name);
+    let mut snapv = Vec::new();
     shim::register(scratch);
     let mut ap = OpApplier::new(hist, &dir);
     let keys = ap.keys.clone();
@@ -225,11 +249,17 @@ pub fn run_recorded(hist: &Hist, scratch: &Path, name: &str, with_fsync: bool) -
     if let Err(e) = ap.open() {
         failure = Some(fail("open-failed", e));
     }
+    if snaps {
+        snapv.push((shim::log_len(), snapshot_dir(&dir)));
+    }
     if failure.is_none() {
         for (i, op) in hist.ops.iter().enumerate() {
             shim::marker(i, false);
             let got = ap.apply(i, op);
             shim::marker(i, true);
+            if snaps {
+                snapv.push((shim::log_len(), snapshot_dir(&dir)));
+            }
             let want = model_apply(&mut model, &keys, i, op);
             models.push(model.clone());
             if got != want && failure.is_none() {
@@ -270,6 +300,7 @@ pub fn run_recorded(hist: &Hist, scratch: &Path, name: &str, with_fsync: bool) -
         op_end,
         keys,
         failure,
+        snaps: snapv,
     }
 }
 
